@@ -22,6 +22,24 @@ def run_real(thunk):
         return {'kind': 'raise', 'exc': e, 'cls': [c.__name__ for c in type(e).__mro__]}
 
 
+def raw_function(module, name, extra_globals=None):
+    """the top-level function `name` as written in the source of `module` (the file of the tree under test), WITHOUT its
+    decorators, compiled in a copy of the module's namespace (plus `extra_globals`: fakes for its callees)"""
+    import ast as _a
+    import inspect
+    src = inspect.getsource(module)
+    tree = _a.parse(src)
+    for n in tree.body:
+        if isinstance(n, (_a.FunctionDef,)) and n.name == name:
+            n.decorator_list = []
+            ns = dict(module.__dict__)
+            ns.update(extra_globals or {})
+            code = compile(_a.Module(body=[n], type_ignores=[]), module.__file__, 'exec')
+            exec(code, ns)
+            return ns[name]
+    raise KeyError(name)
+
+
 def implies(a, b):
     return (not a) or bool(b)
 
